@@ -4,7 +4,7 @@
    normalize, symbolic_push, symbolic_append), in-place resolution (all five branches) and authority-handle histories. *)
 From Coq Require Import List NArith Bool Arith.
 Import ListNotations.
-Require Import V.Regex V.Parse V.ParseProofs V.PathSpec V.Splice V.Setters V.Push V.Auth V.AuthProofs V.AuthMut V.AuthMutProofs2 V.RefPath V.RefAuth V.C04Proofs V.C04Proofs2 V.Abnf V.BridgePaths V.C02Bridge V.ValidSetInst V.C04Valid V.C04Valid2.
+Require Import V.Regex V.Parse V.ParseProofs V.PathSpec V.Splice V.Setters V.Push V.Auth V.AuthProofs V.AuthMut V.AuthMutProofs2 V.RefPath V.RefAuth V.C04Proofs V.C04Proofs2 V.Abnf V.BridgePaths V.C02Bridge V.ValidSetInst V.C04Valid V.C04Valid2 V.ResolveValid V.C04Valid3.
 Local Open Scope nat_scope.
 
 Theorem C04_setter_sequences_partial : forall (ops : list sop) (p : parts), wf_parts p -> Forall arg_ok ops ->
@@ -38,6 +38,18 @@ Theorem C04_mixed_validity_IRI : forall ops s, L (IRI_reference I C02Bridge.P) s
   exists s', vrun ops s = Some s' /\ L (IRI_reference I C02Bridge.P) s'.
 Proof. exact valid_mixed_I. Qed.
 Print Assumptions C04_mixed_validity_IRI.
+
+(* ... and with IN-PLACE RESOLUTION against any URI (IRI) added to the mix -- all five branches of resolve, each shown
+   to return a reference whose every component is in its RFC language: THE PROPERTY at grammar level for every safe
+   mutator of a reference except the authority handle (whose own grammar-level statement is C11_history_valid_URI, _IRI) *)
+Theorem C04_all_mutators_keep_validity_URI : forall ops s, L (IRI_reference U U) s -> Forall (wok U U) ops ->
+  exists s', wrun ops s = Some s' /\ L (IRI_reference U U) s'.
+Proof. exact valid_all_U. Qed.
+Print Assumptions C04_all_mutators_keep_validity_URI.
+Theorem C04_all_mutators_keep_validity_IRI : forall ops s, L (IRI_reference I C02Bridge.P) s -> Forall (wok I C02Bridge.P) ops ->
+  exists s', wrun ops s = Some s' /\ L (IRI_reference I C02Bridge.P) s'.
+Proof. exact valid_all_I. Qed.
+Print Assumptions C04_all_mutators_keep_validity_IRI.
 
 (* the same for sequences that MIX the five setters, path push / pop / clear / normalize / symbolic_push /
    symbolic_append (through a handle taken on the reference), in-place resolution against any well-formed base that
